@@ -129,7 +129,11 @@ pub fn run_history(seed: u64) -> Outcome {
         if op < 4 {
             // grow
             let n = *rng.pick(&[1usize, 2, 4, 12, 13, 100, 4096, 5000]);
-            let n = 1 + rng.usize_below(n);
+            let mut n = 1 + rng.usize_below(n);
+            // now and then a really large growth (size-dependent paths: chunking, 32-bit casts)
+            if rng.chance(1, 120) && mode == Mode::Plain && fault == Fault::None {
+                n = *rng.pick(&[65_536usize, (1 << 20) - 1, 1 << 20, (1 << 20) + 1, 3 << 20]);
+            }
             match rng.below(3) {
                 0 => {
                     let b = rng.bytes(n);
